@@ -32,6 +32,7 @@ I = {"base": "integer", "kind": None}
 R = {"base": "real", "kind": None}
 L = {"base": "logical", "kind": None}
 
+WATCHDOG_S = 60
 SUB_NAMES = ["callme", "ifx", "do_it", "write_out", "format_str", "end_it", "sizeof2", "select_one", "where_to",
              "print_all", "stop_it", "allocate_me", "gotox", "call_back", "elseif_x", "then_go"]
 FUN_NAMES = ["iff", "whilefn", "casefn", "do_sum", "endfn", "realpart2", "func_a", "callf", "ifunc", "writefn",
@@ -86,7 +87,13 @@ class ExecGen:
             opts.append((4, "fun"))
         if depth < 3:
             opts += [(2, "bin"), (1, "paren"), (2, "intr")]
+        if getattr(s, "chain_objs", None):
+            opts.append((2, "chain"))
         k = ch.weighted(opts)
+        if k == "chain":
+            # a long component chain, with or without blanks around `%`; nothing in it is a call
+            sep = ch.choice(["%", " % ", "% ", " %"])
+            return sep.join([ch.choice(s.chain_objs)] + ["next"] * ch.choice([1, 3, 8, 13]) + ["v"])
         if k == "lit":
             return ch.choice(["1", "2", "3", "10"])
         if k == "var":
@@ -407,6 +414,10 @@ def locals_for(scope, syms, ch, tag):
         fn = f"extfun_{tag}"
         scope["decls"].append(dict(_var(fn, I, attrs=["external"]), no_stmt=True))
         s.funs[fn] = 1
+    if getattr(s, "chains", False) and ch.bool(1, 3):
+        cn = f"chain_{tag}"
+        scope["decls"].append(_var(cn, {"base": "type", "proto": "node_t"}))
+        s.chain_objs = getattr(s, "chain_objs", []) + [cn]
     aa = f"dyn_{tag}"
     d = _var(aa, I, attrs=["allocatable"])
     d["dimattr"] = "(:)"
@@ -457,6 +468,15 @@ def gen_model(ch: Chooser, excl=(), assoc_from_unused_procs=False, assoc_pool=No
                          "access_how": "attr", "sequence": False, "private_comps": False,
                          "comps": [_var("n", I), dict(_var("tab", I), dimattr="(10)")], "private_binds": False,
                          "binds": [], "finals": [], "doc": None})
+    if "long_chains" not in excl:
+        # a self-referential type: component chains of any length are valid
+        lib["decls"].append({"d": "type", "name": "node_t", "abstract": False, "extends": None, "access": None,
+                             "access_how": "attr", "sequence": False, "private_comps": False,
+                             "comps": [dict(_var("next", {"base": "type", "proto": "node_t"}, attrs=["pointer"]), no_stmt=True),
+                                       _var("v", I)],
+                             "private_binds": False, "binds": [], "finals": [], "doc": None})
+        syms.chains = True
+
     def bound_type(name, comps, impl):
         return {"d": "type", "name": name, "abstract": False, "extends": None, "access": None, "access_how": "attr",
                 "sequence": False, "private_comps": False, "comps": comps, "private_binds": False, "finals": [], "doc": None,
@@ -547,7 +567,30 @@ def strategy(tier, excl):
     return from_bytes(lambda ch: gen_case(ch, excl), min_size=300, max_size=2500)
 
 
+class Timeout(BaseException):
+    """Raised by the watchdog (not an Exception: FORD would report it as a parse error of the file and carry on)."""
+
+
+def _alarm(signum, frame):
+    raise Timeout()
+
+
 def check(case) -> Result:
+    import signal
+    old = signal.signal(signal.SIGALRM, _alarm)
+    signal.alarm(WATCHDOG_S)
+    try:
+        return _check(case)
+    except Timeout:
+        res = Result(nontrivial=case.get("nontrivial", False), classes=list(case.get("classes", [])))
+        res.fail("hang", f"FORD did not finish reading the project within {WATCHDOG_S} s")
+        return res
+    finally:
+        signal.alarm(0)
+        signal.signal(signal.SIGALRM, old)
+
+
+def _check(case) -> Result:
     res = Result(nontrivial=case.get("nontrivial", False), classes=list(case.get("classes", [])))
     res.sample = {"files": case["files"], "expected_calls": [(r["scope"], r["expect"]) for r in case["refs"]]}
     try:
